@@ -98,6 +98,9 @@ type Obs struct {
 	Active         bool     `json:"active"`  // the plugin received the event sent after registration
 	Millis         int64    `json:"ms"`
 	Crash          string   `json:"crash,omitempty"`
+	// the plugin end's registration call returned an error after the runtime had already reported
+	// a failed synchronisation (see errRegister)
+	RegReplyLost bool `json:"reg_reply_lost,omitempty"`
 }
 
 const (
@@ -230,6 +233,13 @@ func updates(n int) []*api.ContainerUpdate {
 }
 
 var errScript = errors.New("verif: scripted plugin failure")
+
+// errRegister: the plugin end's RegisterPlugin call (raw plugin) or Start (stub) returned an error.
+// The runtime answers RegisterPlugin and goes on to configure and synchronise the plugin at once; when
+// the synchronisation fails it closes the connection, and a plugin end that was slow to read the answer
+// to RegisterPlugin sees "ttrpc: closed" instead.  runCase accepts this only when the runtime's sync
+// call-back did report a failed synchronisation.
+var errRegister = errors.New("registration call failed")
 var errBound = errors.New("verif: more Synchronize messages than the proved bound")
 
 // ---------------------------------------------------------------- raw scripted plugin
@@ -329,8 +339,9 @@ func startRaw(sock string, rec *recorder) (func(), error) {
 	ctx, cancel := context.WithTimeout(context.Background(), regTimeout)
 	defer cancel()
 	if _, err := api.NewRuntimeClient(client).RegisterPlugin(ctx, &api.RegisterPluginRequest{PluginName: "raw", PluginIdx: "10"}); err != nil {
-		stop()
-		return nil, fmt.Errorf("RegisterPlugin: %w", err)
+		// the caller decides: when the synchronisation has failed meanwhile, the runtime has closed
+		// the connection, possibly before the answer to RegisterPlugin was read (errRegister)
+		return stop, fmt.Errorf("%w: %v", errRegister, err)
 	}
 	return stop, nil
 }
@@ -389,7 +400,7 @@ func startStub(sock string, rec *recorder) (func(), error) {
 		return nil, err
 	}
 	if err := st.Start(context.Background()); err != nil {
-		return nil, fmt.Errorf("stub start: %w", err)
+		return st.Stop, fmt.Errorf("%w: stub start: %v", errRegister, err)
 	}
 	return st.Stop, nil
 }
@@ -445,12 +456,25 @@ func runCase(dir string, k int, sp *Spec) (*Obs, error) {
 	} else {
 		stop, err = startRaw(sock, rec)
 	}
+	var res syncResult
 	if err != nil {
-		return nil, fmt.Errorf("plugin start: %w", err)
+		if !errors.Is(err, errRegister) {
+			return nil, fmt.Errorf("plugin start: %w", err)
+		}
+		defer stop()
+		select {
+		case res = <-done:
+			if res.err == nil {
+				return nil, fmt.Errorf("plugin start: %w (although the synchronisation succeeded)", err)
+			}
+			o.RegReplyLost = true
+		case <-time.After(regTimeout):
+			return nil, fmt.Errorf("plugin start: %w (and no synchronisation result)", err)
+		}
+	} else {
+		defer stop()
+		res = <-done // the parent's watchdog bounds this wait
 	}
-	defer stop()
-
-	res := <-done // the parent's watchdog bounds this wait
 	// registration is finished (plugin appended or dropped) once the sync lock is free again
 	r.BlockPluginSync().Unblock()
 	ctx, cancel := context.WithTimeout(context.Background(), regTimeout)
